@@ -17,4 +17,39 @@ example : (CPage.mk [2 ^ 63, 1, 0, 0, 0, 0, 0, 0] 2).ranges = [(63, 64)] := by d
 example : (CPage.mk (List.replicate 8 (2 ^ 64 - 1)) 512).ranges = [(0, 511)] := by decide
 example : CPage.zero.ranges = [] := by decide
 
+/-- (B) bitset.rs `BitSetRangeIter` (`new`, `page_iter`, `move_to_next_page`, `reset_page_iter`,
+`next_range`, the merging loop of `next`), run to exhaustion on a set satisfying the
+representation invariant (pages stored in ARBITRARY order and reached through the sorted map,
+zero pages allowed), yields exactly the abstract ranges `runsOfList s.abs.membersAll`: a run is
+continued across a page end exactly when the next map entry has the adjacent major AND its bit 0
+is set; zero pages and missing majors end it. -/
+theorem range_iter_yields_abstract_ranges (s : CBitSet) (hs : CInv s) :
+    s.iterRanges = s.abs.ranges :=
+  range_iter_yields_abstract_ranges' s hs
+
+/-- the same, spelled out: the ranges are the maximal runs of all members of all mapped pages -/
+theorem range_iter_yields_runs_of_members (s : CBitSet) (hs : CInv s) :
+    s.iterRanges = runsOfList s.abs.membersAll :=
+  range_iter_yields_abstract_ranges' s hs
+
+-- the merge condition (`continuation.start() == range.end() + 1`; seeded bug C14-5 compared with
+-- the start of the next page IN THE MAP instead): majors 0 and 2, bit 511 of page 0 and bit 0 of
+-- page 2 — two separate ranges, the gap of the missing major 1 is not bridged.  The pages are
+-- stored in reverse order (`pages[1]` is major 0).
+example :
+    (CBitSet.mk [⟨[1, 0, 0, 0, 0, 0, 0, 0], 1⟩, ⟨[0, 0, 0, 0, 0, 0, 0, 2 ^ 63], 1⟩]
+      [(0, 1), (2, 0)] 2).iterRanges = [(511, 511), (1024, 1024)] := by decide
+-- adjacent majors 0 and 1: one range across the page end; a zero page at major 2 ends it
+example :
+    (CBitSet.mk [⟨[1, 0, 0, 0, 0, 0, 0, 0], 1⟩, ⟨[0, 0, 0, 0, 0, 0, 0, 2 ^ 63], 1⟩, CPage.zero]
+      [(0, 1), (1, 0), (2, 2)] 2).iterRanges = [(511, 512)] := by decide
+-- the invariant is satisfiable by such a set
+example : CInv (CBitSet.mk [⟨[1, 0, 0, 0, 0, 0, 0, 0], 1⟩, ⟨[0, 0, 0, 0, 0, 0, 0, 2 ^ 63], 1⟩]
+    [(0, 1), (2, 0)] 2) := by
+  refine ⟨rfl, by decide, by decide, by decide, ?_, by decide⟩
+  intro p hp
+  simp only [List.mem_cons, List.not_mem_nil, or_false] at hp
+  rcases hp with rfl | rfl <;> refine ⟨rfl, ?_, by decide⟩ <;> intro e he <;>
+    simp only [List.mem_cons, List.not_mem_nil, or_false] at he <;> omega
+
 end FontVerif.C14IterConc
